@@ -8,6 +8,60 @@ C04_INV = ["CaughtUpMirrors", "StatusTracks", "NoOrphans", "PendingOnlyWhileInco
 C04_TRACE_INV = ["KeysUnique", "CaughtUpMirrors", "StatusTracks", "NoOrphans", "NoStepViolation"]
 
 
+F5_TEXT = ("F5 a node that leaves and then compacts re-publishes proxy_addr/admin_addr with versions above its "
+           "old left marker; an observer that first hears of it through a relay holding the old marker and one new "
+           "address is told 'leave' while the node is still pending, the syncer discards the pending node and "
+           "ignores everything it learns about it afterwards: the observer has caught up with the left node but "
+           "its routing table does not list it (other observers list it as left) "
+           "(site=syncer.OnLeave sig=leave-while-pending)")
+
+
+def f5_listed():
+    known, _ = vp.known_findings()
+    return any(k.get("id") == "F5" and k.get("property") == "C04" for k in known)
+
+
+def trace_inv():
+    """known finding F5 is excused (on views with its signature only) while KNOWN_FINDINGS.txt lists it"""
+    if f5_listed():
+        return C04_TRACE_INV
+    return [("CaughtUpMirrorsNoF5" if x == "CaughtUpMirrors" else x) for x in C04_TRACE_INV]
+
+
+def f5_known(chk):
+    """F5: reproduce on the real code (signature + harm), otherwise the entry is stale."""
+    if not f5_listed():
+        return
+    beh = [
+        ["LeaveLocal", "a"], ["AddEndpoint", "a", "e1"], ["RemoveEndpoint", "a", "e1"],
+        # b learns everything a has published (proxy_addr 1, admin_addr 2, left 3, tombstone 5)
+        ["StartRound", "a", "b", 0], ["RecvDigest", 1, False, 0, False], ["RecvDelta", 1, False],
+        ["RecvDigest", 2, False, 0, False], ["RecvDelta", 1, False],
+        # a compacts: proxy_addr 6, admin_addr 7, left 8, compaction marker 9
+        ["CompactLocal", "a", 1],
+        # b learns the first re-versioned entry only (cut after the node header and one entry)
+        ["StartRound", "a", "b", 0], ["RecvDigest", 1, False, 0, False], ["DoRecvDigest", 1, False, 2],
+        ["RecvDelta", 1, False],
+        # c first hears of a's state through b: admin_addr 2, left 3, tombstone 5, proxy_addr 6
+        ["StartRound", "c", "b", 0], ["RecvDigest", 1, False, 0, False], ["RecvDelta", 1, False], ["Lose", 2],
+        # c catches up with a itself
+        ["StartRound", "a", "c", 0], ["RecvDigest", 1, False, 0, False], ["RecvDelta", 1, False],
+        ["RecvDigest", 2, False, 0, False], ["RecvDelta", 1, False],
+    ]
+    nodes = ["a", "b", "c"]
+    sched = {"nodes": nodes, "initKnown": True, "routing": True, "endpoints": ["e1"], "behaviours": [beh]}
+    with vp.Scratch("f5") as d:
+        tp, stats = G.run_geng(d, sched, chk.seed, name="f5")
+        v = G.validate(chk, tp, nodes, invariants=C04_TRACE_INV, label="f5-signature")
+        v2 = G.validate(chk, tp, nodes, invariants=["CaughtUpMirrorsNoF5"], label="f5-harm")
+    chk.traces += 1
+    chk.evaluations += stats.get("steps", 0)
+    if v.f5 > 0 and not v.violation and v2.violation and v2.violation["invariant"] == "CaughtUpMirrorsNoF5":
+        chk.known("F5", F5_TEXT)
+    else:
+        chk.notes["f5_not_reproduced"] = True
+
+
 def c04_plan(tier):
     rc = dict(G.OBS_ROUTING, EpUsed={"endpoint:e1"}, MaxCount=2, Key={"k1"}, Val={"x"})
     if tier == "quick":
@@ -40,10 +94,13 @@ def c04(chk):
                 "pending set, the routing table (Nodes()) and LookupEndpoint(e) of every node are read back and "
                 "judged by TLC: CaughtUpMirrors, StatusTracks, NoOrphans, LookupSound")
     chk.assumptions = ["owners publish proxy_addr and admin_addr before anything else (syncer.Sync)",
-                       "known finding F4 is excused only on views touched by a step with its signature"]
+                       "known finding F4 is excused only on views touched by a step with its signature",
+                       "known finding F5 is excused only for a node that the observer's syncer was told had left "
+                       "while it was pending; the node must then stay absent and be left in the gossip view"]
     rc, plan = c04_plan(chk.tier)
-    gossip_family(chk, C04_INV, [], C04_TRACE_INV, module="Routing", spec="RSpec", extra_consts=rc,
+    gossip_family(chk, C04_INV, [], trace_inv(), module="Routing", spec="RSpec", extra_consts=rc,
                   routing=True, plan=plan,
                   require_ops=["UpsertLocal", "DeleteLocal", "CompactLocal", "LeaveLocal", "RecvDelta",
                                "RemoveExpired"])
     f4_known_generic(chk, "C04")
+    f5_known(chk)
